@@ -178,6 +178,20 @@ def run(tier):
                         src = head + (f"fn g(x){{\n  self + match (x % {k}) {{ {body} }}\n}}\n"
                                       f"fn dsp(){{\n  g(now) + g(now + 1) * 1000 + lag(now)\n}}\n")
                     corpus.append((f"match:{a0}{a1}{dflt or '-'}:{wrap}", src, None))
+    # the scrutinee of a numeric match is cast to an integer: values no integer can hold (NaN, infinities, magnitudes
+    # beyond 2^63), fractions, signed zero - through dsp's input
+    special = ["x7ff8000000000000", "x7ff0000000000000", "xfff0000000000000", "x43e0000000000000", "xc3e0000000000001",
+               "x7fefffffffffffff", "x3fe0000000000000", "x8000000000000000", "x3ff8000000000000", "xbff0000000000000", 0, 1, 2]
+    special_inputs = {}
+    for a1 in ("c", "s", "d"):
+        for dflt in ("c", "s"):
+            body = f"0 => 5, 1 => {arms[a1]}, _ => {arms[dflt]}"
+            for wrap, src in (("dsp", head + f"fn dsp(x){{\n  let r = match (x) {{ {body} }}\n  r + cnt() * 1000\n}}\n"),
+                              ("fn", head + f"fn g(x){{\n  self + match (x * 2) {{ {body} }}\n}}\nfn dsp(x){{\n  g(x) + lag(now)\n}}\n"),
+                              ("self", head + f"fn g(x){{\n  match (self) {{ {body} }} + self * x\n}}\nfn dsp(x){{\n  g(x)\n}}\n")):
+                name = f"matchspecial:{a1}{dflt}:{wrap}"
+                corpus.append((name, src, None))
+                special_inputs[name] = [[v] for v in special]
     pins = {}
     d = os.path.join(vlib.VERIF, "findings", "C03")
     if os.path.isdir(d):
@@ -199,6 +213,9 @@ def run(tier):
         # of the mutants the checker accepts (pinned findings, one instance per class)
         q = {"id": name, "src": src, "n": n, "backends": ["vm"] if "#" in name else ["vm", "wasm"], "sched": True, "strict": True,
              "inputs": [[(t % 5) - 1] for t in range(n)]}
+        if name in special_inputs:
+            q["inputs"] = (special_inputs[name] * n)[:max(n, len(special_inputs[name]))]
+            q["n"] = len(q["inputs"])
         if path:
             q["path"] = path
         reqs.append(q)
@@ -229,8 +246,12 @@ def run(tier):
             k2 = vlib.canon_key(case["src"])
             if be == "wasm" and k2 in pins and pins[k2].get("vm_too"):
                 continue
-            what = pins[k2]["what"] if k2 in pins else f"{be}: {case['name']}: {f['what']} (sample {f['at']})\n{case['src'][:900]}"
-            chk.violation(what, dict(case, backend=be), key=k2)
+            # a pinned finding is a (source, runtime) pair: the same source failing on the other runtime is another violation
+            if k2 in pins and pins[k2].get("backend") in (None, be, "both"):
+                chk.violation(pins[k2]["what"], dict(case, backend=be), key=k2)
+            else:
+                chk.violation(f"{be}: {case['name']}: {f['what']} (sample {f['at']})\n{case['src'][:900]}", dict(case, backend=be),
+                              key=k2 if k2 not in pins else vlib.canon_key(case["src"] + "|" + be))
         del records, meta
     chk.cov["programs"] = len(uniq)
     chk.cov["mutants"] = nmut
